@@ -11,7 +11,7 @@ from vf.props.c18 import harvest_words, IT_POS
 M32 = 0xFFFFFFFF
 USR = 0b10000
 # user-visible state (DESIGN.md appendix A.8); everything else in the snapshot is privileged
-USER_KEYS = {'R.R%dusr' % i for i in range(13)} | {'R.SPusr', 'R.LRusr', 'R.PC', 'event_register', 'wfe', 'wfi', 'cplog'}
+USER_KEYS = {'R.R%dusr' % i for i in range(13)} | {'R.SPusr', 'R.LRusr', 'R.PC', 'event_register', 'wfe', 'wfi', 'cplog', 'excl'}
 CPSR_USER_BITS = 0xF80F0000 | 0x0600FC00 | (1 << 9) | (1 << 5) | (1 << 24)   # NZCVQ, GE, IT, E, T, (J cannot be set by valid code paths here)
 FAULT_REGS = ('dfsr', 'dfar', 'hsr', 'hdfar', 'hpfar')
 VEC_OFF = {0b11011: (0x04,), 0b10011: (0x08,), 0b10111: (0x10,), 0b10110: (0x08,), 0b11010: (0x04, 0x08, 0x10, 0x14)}
